@@ -46,6 +46,9 @@ type Contract struct {
 	// AutoInv: candidate loop invariants `v >= c` for every integer loop variable that enters
 	// its loop with the constant c; candidates that are not inductive are dropped (Houdini)
 	AutoInv bool
+	// BinaryAbstract: encoding/binary PutUintN/AppendUintN write unconstrained bytes (a sound
+	// over-approximation that keeps frame and safety proofs of long encoders small)
+	BinaryAbstract bool
 	Mode     string // "", "bv"
 	Strings  string // "", "smt"
 	Trusted  bool   // body not checked (only allowed for external functions)
@@ -130,7 +133,7 @@ type Axiom struct {
 
 var clauseKeywords = map[string]bool{
 	"func": true, "requires": true, "ensures": true, "assigns": true, "loop": true,
-	"safety": true, "auto-invariants": true, "mode": true, "strings": true, "trusted": true, "pure": true, "inline": true,
+	"safety": true, "auto-invariants": true, "binary": true, "mode": true, "strings": true, "trusted": true, "pure": true, "inline": true,
 	"spec": true, "lemma": true, "axiom": true, "at-call": true, "unroll": true, "atomic": true, "inventory": true, "allowed-calls": true, "abstract-calls": true, "pure-params": true, "package": true,
 }
 
@@ -364,6 +367,11 @@ func (cs *ContractSet) loadContractFile(path, pkgPath string) error {
 				cur.Safety = rest == "on"
 			case "auto-invariants":
 				cur.AutoInv = true
+			case "binary":
+				if rest != "abstract" {
+					return fmt.Errorf("%s:%d: only `binary abstract` is known", path, st.line)
+				}
+				cur.BinaryAbstract = true
 			case "atomic":
 				// atomic Type.field rely <expr> guarantee [tag] <expr>
 				gi := strings.Index(rest, " guarantee ")
